@@ -7,6 +7,16 @@
 //   tinv n eps eps0 A         -> ok Ainv(n*n)     | fail     (TinyMatrixInvert<N,double>::exe(m, eps); eps0 ignored = default)
 //   qr n e A b                -> ok x(n) rdiag(n) beta(n) a(n*n) | fail rdiag beta a
 // stdout: same format as lean/TfelVerif/C07/Driver.lean
+// Variants of the same entry points (same request/answer format as the base op given in parentheses; the
+// check sends the base op to the model):
+//   tsolvemx (tsolvem)  TinyMatrixSolve<N,double,true>::exe(m, tmatrix<N,M>)   (exceptions, matrix rhs)
+//   tsolved|tsolvexd (tsolve), tsolvemd (tsolvem), qrd (qr)  : the DEFAULT eps argument (eps field ignored)
+//   tsolvec|tsolvecx (tsolve), tsolvemc (tsolvem), lutc (lut): perform_runtime_checks = true  (N <= C07_NCHK)
+//   luc|lux|luxc (lu)   LUDecomp<false,true> | LUDecomp<true,false> | LUDecomp<true,true> on matrix+Permutation
+//   lur (lu)            Permutation of another size, swapped, then resize(n)
+//   lusolve4 (lusolve)  LUSolve::exe(m,b,x,p) with a permutation left dirty by a previous use
+//   lubs (lusolve)      LUDecomp<true>::exe(m,p,eps) + LUSolve::back_substitute(m,b,x,p)   (eps honoured)
+//   tperm n k i1 j1..ik jk v(n) -> ok isIdentity p(n) v(n)   TinyPermutation<N>: k swaps then exe(v)
 #include <cmath>
 #include <cstdint>
 #include <cstring>
@@ -84,7 +94,10 @@ static std::string lut(const Request& r) {
   return os.str();
 }
 
-template <unsigned short N, bool use_exceptions>
+#ifndef C07_NCHK
+#define C07_NCHK 5
+#endif
+template <unsigned short N, bool use_exceptions, bool checks = false, bool default_eps = false>
 static std::string tsolve(const Request& r) {
   tmatrix<N, N, double> m;
   tvector<N, double> b;
@@ -93,7 +106,11 @@ static std::string tsolve(const Request& r) {
     b(i) = r.d[1 + N * N + i];
   }
   try {
-    if (!TinyMatrixSolve<N, double, use_exceptions>::exe(m, b, r.d[0])) return "fail";
+    if constexpr (default_eps) {
+      if (!TinyMatrixSolve<N, double, use_exceptions, checks>::exe(m, b)) return "fail";
+    } else {
+      if (!TinyMatrixSolve<N, double, use_exceptions, checks>::exe(m, b, r.d[0])) return "fail";
+    }
   } catch (LUException&) {
     return "fail";
   }
@@ -103,7 +120,7 @@ static std::string tsolve(const Request& r) {
   return os.str();
 }
 
-template <unsigned short N, unsigned short M>
+template <unsigned short N, unsigned short M, bool use_exceptions = false, bool checks = false, bool default_eps = false>
 static std::string tsolvem(const Request& r) {
   tmatrix<N, N, double> m;
   tmatrix<N, M, double> b;
@@ -112,7 +129,11 @@ static std::string tsolvem(const Request& r) {
     for (unsigned short k = 0; k != M; ++k) b(i, k) = r.d[1 + N * N + i * M + k];
   }
   try {
-    if (!TinyMatrixSolve<N, double, false>::exe(m, b, r.d[0])) return "fail";
+    if constexpr (default_eps) {
+      if (!TinyMatrixSolve<N, double, use_exceptions, checks>::exe(m, b)) return "fail";
+    } else {
+      if (!TinyMatrixSolve<N, double, use_exceptions, checks>::exe(m, b, r.d[0])) return "fail";
+    }
   } catch (LUException&) {
     return "fail";
   }
@@ -123,14 +144,53 @@ static std::string tsolvem(const Request& r) {
   return os.str();
 }
 
-template <unsigned short N>
+template <unsigned short N, bool use_exceptions = false, bool checks = false, bool default_eps = false>
 static std::string tsolvem_dispatch(const Request& r) {
   switch (r.mc) {
-    case 1: return tsolvem<N, 1>(r);
-    case 2: return tsolvem<N, 2>(r);
-    case 3: return tsolvem<N, 3>(r);
+    case 1: return tsolvem<N, 1, use_exceptions, checks, default_eps>(r);
+    case 2: return tsolvem<N, 2, use_exceptions, checks, default_eps>(r);
+    case 3: return tsolvem<N, 3, use_exceptions, checks, default_eps>(r);
     default: return "bad-op";
   }
+}
+
+// LUDecomp with perform_runtime_checks = true on tmatrix + TinyPermutation
+template <unsigned short N>
+static std::string lutc(const Request& r) {
+  tmatrix<N, N, double> m;
+  for (unsigned short i = 0; i != N; ++i)
+    for (unsigned short j = 0; j != N; ++j) m(i, j) = r.d[1 + i * N + j];
+  TinyPermutation<N> p;
+  const auto res = LUDecomp<false, true>::exe(m, p, r.d[0]);
+  if (!res.first) return "fail";
+  std::ostringstream os;
+  os << "ok " << res.second;
+  for (unsigned short i = 0; i != N; ++i) os << " " << p(i);
+  for (unsigned short i = 0; i != N; ++i)
+    for (unsigned short j = 0; j != N; ++j) os << " " << show_hex(m(i, j));
+  return os.str();
+}
+
+// TinyPermutation<N>: k swaps, then exe(v)
+template <unsigned short N>
+static std::string tperm(const Request& r) {
+  TinyPermutation<N> p;
+  const auto k = static_cast<unsigned>(r.d[0]);
+  if (r.d.size() != 1 + 2 * k + N) return "bad-op";
+  for (unsigned s = 0; s != k; ++s) {
+    const auto i = static_cast<unsigned short>(r.d[1 + 2 * s]);
+    const auto j = static_cast<unsigned short>(r.d[2 + 2 * s]);
+    if (i >= N || j >= N) return "bad-op";
+    p.swap(i, j);
+  }
+  tvector<N, double> v;
+  for (unsigned short i = 0; i != N; ++i) v(i) = r.d[1 + 2 * k + i];
+  p.exe(v);
+  std::ostringstream os;
+  os << "ok " << (p.isIdentity() ? 1 : 0);
+  for (unsigned short i = 0; i != N; ++i) os << " " << p(i);
+  for (unsigned short i = 0; i != N; ++i) os << " " << show_hex(v(i));
+  return os.str();
 }
 
 template <unsigned short N>
@@ -158,6 +218,17 @@ static std::string tiny_dispatch(const Request& r) {
     if (r.op == "tsolvex") return tsolve<N, true>(r);
     if (r.op == "tsolvem") return tsolvem_dispatch<N>(r);
     if (r.op == "tinv") return tinv<N>(r);
+    if (r.op == "tsolvemx") return tsolvem_dispatch<N, true>(r);
+    if (r.op == "tsolved") return tsolve<N, false, false, true>(r);
+    if (r.op == "tsolvexd") return tsolve<N, true, false, true>(r);
+    if (r.op == "tsolvemd") return tsolvem_dispatch<N, false, false, true>(r);
+    if (r.op == "tperm") return tperm<N>(r);
+    if constexpr (N <= C07_NCHK) {
+      if (r.op == "tsolvec") return tsolve<N, false, true>(r);
+      if (r.op == "tsolvecx") return tsolve<N, true, true>(r);
+      if (r.op == "tsolvemc") return tsolvem_dispatch<N, false, true>(r);
+      if (r.op == "lutc") return lutc<N>(r);
+    }
     return "bad-op";
   }
   if constexpr (N < NMAX) {
@@ -184,6 +255,63 @@ static std::string lu(const Request& r) {
   return os.str();
 }
 
+// variants of LUDecomp on matrix + Permutation: template flags, or a permutation prepared through resize()
+template <bool use_exceptions, bool checks, bool resized>
+static std::string lu_variant(const Request& r) {
+  const auto n = r.n;
+  matrix<double> m(n, n);
+  for (unsigned i = 0; i != n; ++i)
+    for (unsigned j = 0; j != n; ++j) m(i, j) = r.d[1 + i * n + j];
+  using P = Permutation<index_type<matrix<double>>>;
+  P p(resized ? (n > 1 ? n - 1 : 1) : n);
+  if constexpr (resized) {
+    if (n > 2) p.swap(0, n - 2);
+    p.resize(n);
+  }
+  std::pair<bool, int> res;
+  try {
+    res = LUDecomp<use_exceptions, checks>::exe(m, p, r.d[0]);
+  } catch (LUException&) {
+    return "fail";
+  }
+  if (!res.first) return "fail";
+  std::ostringstream os;
+  os << "ok " << res.second;
+  for (unsigned i = 0; i != n; ++i) os << " " << p(i);
+  for (unsigned i = 0; i != n; ++i)
+    for (unsigned j = 0; j != n; ++j) os << " " << show_hex(m(i, j));
+  return os.str();
+}
+
+// LUSolve::exe(m,b,x,p) with a permutation left non-identical by a previous use (mode 0), or
+// LUDecomp<true>::exe(m,p,eps) followed by LUSolve::back_substitute (mode 1, eps honoured)
+template <int mode>
+static std::string lusolve_variant(const Request& r) {
+  const auto n = r.n;
+  matrix<double> m(n, n);
+  vector<double> b(n), x(n);
+  for (unsigned i = 0; i != n; ++i) {
+    for (unsigned j = 0; j != n; ++j) m(i, j) = r.d[1 + i * n + j];
+    b(i) = r.d[1 + n * n + i];
+  }
+  Permutation<index_type<matrix<double>>> p(n);
+  try {
+    if constexpr (mode == 0) {
+      if (n > 1) p.swap(0, n - 1);
+      LUSolve::exe(m, b, x, p);
+    } else {
+      LUDecomp<true>::exe(m, p, r.d[0]);
+      LUSolve::back_substitute(m, b, x, p);
+    }
+  } catch (LUException&) {
+    return "fail";
+  }
+  std::ostringstream os;
+  os << "ok";
+  for (unsigned i = 0; i != n; ++i) os << " " << show_hex(b(i));
+  return os.str();
+}
+
 static std::string lusolve(const Request& r) {
   const auto n = r.n;
   matrix<double> m(n, n);
@@ -203,6 +331,7 @@ static std::string lusolve(const Request& r) {
   return os.str();
 }
 
+template <bool default_eps = false>
 static std::string qr(const Request& r) {
   const auto n = r.n;
   matrix<double> m(n, n);
@@ -215,7 +344,11 @@ static std::string qr(const Request& r) {
   QRDecomp::exe(m, rdiag, beta);
   QRDecomp::tq_product(b, m, beta);
   try {
-    QRDecomp::back_substitute(b, m, rdiag, r.d[0]);
+    if constexpr (default_eps) {
+      QRDecomp::back_substitute(b, m, rdiag);
+    } else {
+      QRDecomp::back_substitute(b, m, rdiag, r.d[0]);
+    }
   } catch (QRException&) {
     ok = false;
   }
@@ -241,7 +374,7 @@ int main() {
       std::cout << "bad-op\n";
       continue;
     }
-    if (r.op == "tsolvem" && !(is >> r.mc)) {
+    if (r.op.rfind("tsolvem", 0) == 0 && !(is >> r.mc)) {
       std::cout << "bad-op\n";
       continue;
     }
@@ -257,9 +390,16 @@ int main() {
     }
     const std::size_t n = r.n;
     std::size_t expected = 0;
-    if (r.op == "lu" || r.op == "lut") expected = 1 + n * n;
-    if (r.op == "lusolve" || r.op == "tsolve" || r.op == "tsolvex" || r.op == "qr") expected = 1 + n * n + n;
-    if (r.op == "tsolvem") expected = 1 + n * n + n * r.mc;
+    const auto isop = [&r](std::initializer_list<const char*> l) {
+      for (const auto* o : l)
+        if (r.op == o) return true;
+      return false;
+    };
+    if (isop({"lu", "lut", "lutc", "luc", "lux", "luxc", "lur"})) expected = 1 + n * n;
+    if (isop({"lusolve", "tsolve", "tsolvex", "qr", "tsolved", "tsolvexd", "tsolvec", "tsolvecx", "qrd", "lusolve4", "lubs"}))
+      expected = 1 + n * n + n;
+    if (isop({"tsolvem", "tsolvemx", "tsolvemd", "tsolvemc"})) expected = 1 + n * n + n * r.mc;
+    if (r.op == "tperm") expected = r.d.size();
     if (r.op == "tinv") expected = 2 + n * n;
     if (!good || expected == 0 || r.d.size() != expected) {
       std::cout << "bad-op\n";
@@ -272,7 +412,21 @@ int main() {
     } else if (r.op == "lusolve") {
       a = lusolve(r);
     } else if (r.op == "qr") {
-      a = qr(r);
+      a = qr<false>(r);
+    } else if (r.op == "qrd") {
+      a = qr<true>(r);
+    } else if (r.op == "luc") {
+      a = lu_variant<false, true, false>(r);
+    } else if (r.op == "lux") {
+      a = lu_variant<true, false, false>(r);
+    } else if (r.op == "luxc") {
+      a = lu_variant<true, true, false>(r);
+    } else if (r.op == "lur") {
+      a = lu_variant<false, false, true>(r);
+    } else if (r.op == "lusolve4") {
+      a = lusolve_variant<0>(r);
+    } else if (r.op == "lubs") {
+      a = lusolve_variant<1>(r);
     } else
 #endif /* C07_DYNAMIC */
     if (r.n >= NMIN && r.n <= NMAX) {
